@@ -117,7 +117,35 @@ def _map_read_position(S, o):
     return [('C08:the-position-read-is-the-requested-one', z3.And(*[e[2] == p for e in reads]) if reads else smt.T)]
 
 
+def _batch_reads(S):
+    """every input position the batch index evaluates belongs to the requested batch, and a batch that is dropped
+    (drop_last, incomplete) evaluates nothing: ds[i] applies the upstream functions only to the examples of result i"""
+    v = self_view(S)
+    it = S.old.item
+    itn = z3.If(it < 0, it + v.n(), it)
+    s = itn * v.b
+    reads = [e for e in evals(S) if e[0] == 'get']
+    others = [e for e in evals(S) if e[0] != 'get']
+    cl = [z3.And(e[2] >= s, e[2] < s + v.b, z3.Implies(v.drop, s + v.b <= v.inp.n())) for e in reads]
+    return z3.And(z3.BoolVal(not others), *cl)
+
+
+def _batch_point_inv(S):
+    from contracts.stages2 import _batch_getitem_inv
+    out = [('batch', _batch_getitem_inv(S))]
+    if S.proving:
+        out.append(('C08:reads-only-positions-of-the-requested-batch', _batch_reads(S)))
+    return out
+
+
+def _batch_point_post(S, o):
+    return [('C08:reads-only-positions-of-the-requested-batch', _batch_reads(S))]
+
+
 POINT = [
+    _clone(BatchDatasetC, {'__getitem__': [
+        Variant('int/C08', params={'item': 'int'}, requires=BatchDatasetC.methods['__getitem__'][0].requires,
+                post=_batch_point_post, loops={'0': _batch_point_inv}, props=('C08',))]}),
     _clone(MapDatasetC, {'__getitem__': [
         Variant('int', params={'item': 'int'}, requires=lambda S: self_view(S).idx,
                 post=lambda S, o: _point_post(lambda S: (1, 1, 0))(S, o) + _map_read_position(S, o), props=('C08',)),
